@@ -51,6 +51,12 @@ def insertion_rows(text):
             rows.append(r)               # appending at top level
             continue
         if r <= n and not CLOSERS.search(lines[r - 1]) and lines[r - 1].strip() != "":
+            # comment lines do not make the fragment "not last": look at the first real line behind it
+            k = r - 1
+            while k < n and (lines[k].strip() == "" or lines[k].strip().startswith("#")):
+                k += 1
+            if k < n and CLOSERS.search(lines[k]):
+                continue
             rows.append(r)
     return rows
 
@@ -75,6 +81,16 @@ def context(text, r, frag):
     if frag[0].lstrip().startswith("["):
         # a fragment line that starts with `[` is read as an index into the value the previous host line ended on
         return "Dev_BracketLineContinuesPreviousStatement"
+    # ... and so is the first host statement behind the fragment when IT starts with `[` (comment lines in between do not count)
+    k = r - 1
+    while 0 <= k < len(lines) and (lines[k].strip() == "" or lines[k].strip().startswith("#")):
+        k += 1
+    first = lines[k].strip() if 0 <= k < len(lines) else ""
+    if first.startswith("[") or first.startswith("dbtp ["):
+        return "Dev_BracketLineContinuesPreviousStatement"
+    if re.search(r"^\s*in \^", text, re.M) and any(re.match(r"\s*(if|unless)\b", l) for l in frag):
+        # a host with a pinned pattern (`in ^name => x`) analysed behind a conditional: the pattern variable turns untyped
+        return "Dev_PinPatternAfterConditional"
     last = frag[-1].strip()
     ends = "end" if last in ("end", "}") else "assign" if re.match(r"^[a-z_0-9]+ = ", last) else "call"
     return "host-line[%s]/fragment-ends-with-%s" % (shape, ends)
